@@ -351,6 +351,86 @@ example : ∃ S' ol, step exDev (fun _ _ => 1) (fun _ => 1/2) 1 exProj exLine = 
   · simp only [exDev, unflat, stepPoint, flatIdx]
     norm_num
 
+/-! ### `LineMinSpec` is inhabited, and `step_progress` fires: an exact line minimiser on a convex quadratic -/
+
+/-- one slot, bounds `[0, 1]`, cost `s²` (marginal cost `2s`). -/
+def exQ : SDev ℝ :=
+  { rows := 1, n := 1, cost := fun S _ => S 0 0 * S 0 0, deriv := fun S _ _ _ => 2 * S 0 0,
+    bounds := fun _ _ => (0, 1), cons := [], project := fun S => S }
+
+open Classical in
+/-- answers an exact minimiser over the interval whenever one exists; refuses (status 4) otherwise. -/
+noncomputable def exLineMin (pb : Problem ℝ) : Result ℝ :=
+  if h : ∃ x : ℝ, (pb.bounds 0).1 ≤ x ∧ x ≤ (pb.bounds 0).2 ∧
+      ∀ τ : ℝ, (pb.bounds 0).1 ≤ τ → τ ≤ (pb.bounds 0).2 → pb.fn (fun _ => x) ≤ pb.fn (fun _ => τ)
+  then ⟨fun _ => Classical.choose h, true, 0⟩ else ⟨pb.x0, false, 4⟩
+
+theorem exLineMin_spec : LineMinSpec exLineMin := by
+  intro pb ha
+  unfold exLineMin at ha ⊢
+  split_ifs at ha ⊢ with h
+  · exact Classical.choose_spec h
+  · simp [Result.accepted] at ha
+
+theorem exQ_projSpec : ProjSpec exQ exF exProj := by
+  intro p x0 _
+  have hx : (exProj (projProblem exQ.dim p x0 exQ.flatBounds (exQ.cons.map (MCon.toFlat exQ.n)))).x
+      = fun k => clamp 0 1 (p k) := by
+    funext k
+    simp only [exProj, projProblem]
+    congr 1
+    ring
+  rw [hx]
+  exact exF_nearest p
+
+theorem exQ_grad (P : Mat ℝ) (s : ℕ → ℝ) : IsGradAt exQ.dim (exQ.flatCost P) (exQ.flatDeriv P s) s := by
+  intro d
+  have h1 : HasDerivAt (fun τ : ℝ => s 0 + τ * d 0) (d 0) 0 := by
+    simpa using ((hasDerivAt_id' (0:ℝ)).mul_const (d 0)).const_add (s 0)
+  have h2 := h1.mul h1
+  refine (h2.congr_deriv ?_).congr_of_eventuallyEq ?_
+  · simp only [exQ, SDev.dim, SDev.flatDeriv, flat, unflat, flatIdx, sumTo]
+    ring
+  · filter_upwards with τ
+    simp only [exQ, SDev.flatCost, unflat, flatIdx, line, Pi.mul_apply]
+
+/-- from `s = 1/2` with step size `1/4` the projected gradient step is `1/4 ≠ s`; the exact line minimiser is
+accepted, `step` returns, and `step_progress` gives a strictly lower cost. -/
+example : ∃ S' ol, step exQ (fun _ _ => 0) (fun _ => 1/2) (1/4) exProj exLineMin = .ok (S', ol)
+    ∧ exQ.cost S' (fun _ _ => 0) < exQ.cost (unflat exQ.n (fun _ => 1/2)) (fun _ _ => 0) := by
+  have hq : (exProj (projProblem exQ.dim (gradStep exQ (fun _ _ => 0) (fun _ => 1/2) (1/4)) (fun _ => 1/2)
+      exQ.flatBounds (exQ.cons.map (MCon.toFlat exQ.n)))).x = fun _ => 1/4 := by
+    funext k
+    simp only [exProj, projProblem, gradStep, SDev.flatDeriv, flat, unflat, flatIdx, exQ]
+    have : -(2 * (0 - ((1:ℝ) / 2 - 1 / 4 * (2 * (1 / 2))))) / 2 = 1/4 := by norm_num
+    rw [this]
+    simp only [clamp]
+    norm_num
+  have hex : ∃ x : ℝ, ((lineProblem exQ (fun _ _ => 0) (fun _ => 1/2) (fun _ => 1/4)).bounds 0).1 ≤ x ∧
+      x ≤ ((lineProblem exQ (fun _ _ => 0) (fun _ => 1/2) (fun _ => 1/4)).bounds 0).2 ∧
+      ∀ τ : ℝ, ((lineProblem exQ (fun _ _ => 0) (fun _ => 1/2) (fun _ => 1/4)).bounds 0).1 ≤ τ →
+        τ ≤ ((lineProblem exQ (fun _ _ => 0) (fun _ => 1/2) (fun _ => 1/4)).bounds 0).2 →
+        (lineProblem exQ (fun _ _ => 0) (fun _ => 1/2) (fun _ => 1/4)).fn (fun _ => x)
+          ≤ (lineProblem exQ (fun _ _ => 0) (fun _ => 1/2) (fun _ => 1/4)).fn (fun _ => τ) := by
+    refine ⟨1, by simp [lineProblem], by simp [lineProblem], fun τ h0 h1 => ?_⟩
+    simp only [lineProblem, SDev.flatCost, stepPoint, unflat, exQ] at h0 h1 ⊢
+    nlinarith
+  have hacc : (exLineMin (lineProblem exQ (fun _ _ => 0) (fun _ => 1/2) (fun _ => 1/4))).accepted = true := by
+    unfold exLineMin
+    rw [dif_pos hex]
+    rfl
+  have hst : ∃ S' ol, step exQ (fun _ _ => 0) (fun _ => 1/2) (1/4) exProj exLineMin = .ok (S', ol) := by
+    unfold step
+    simp only [hq]
+    rw [if_pos (by rfl), if_pos hacc]
+    exact ⟨_, _, rfl⟩
+  obtain ⟨S', ol, h⟩ := hst
+  refine ⟨S', ol, h, ?_⟩
+  refine step_progress exQ (fun _ _ => 0) (fun _ => 1/2) (1/4) (by norm_num) exProj exLineMin exF exF_convex exF_half
+    exQ_projSpec exLineMin_spec (exQ_grad _ _) S' ol h ⟨0, by simp [exQ, SDev.dim], ?_⟩
+  rw [hq]
+  norm_num
+
 end Example
 
 end DK.C19
